@@ -46,7 +46,7 @@ def parseOp (s : String) : Option HOp :=
   -- records of other writers that omit optional JSON fields: no "ack"/"updated" (decodes as a send), no "payload" (empty)
   | ["rnoack", t, k, p] => (parseMsg3 t k p).map (fun m => .raw m false)
   | ["rnopl", t, k, a] => (parseMsg3 t k "-").map (fun m => .raw m (a == "1"))
-  | ["bad", _] => some .bad
+  | "bad" :: _ => some .bad
   | ["eof", p] => p.toInt?.map .eof
   | ["kerr"] => some .kerr
   | _ => none
